@@ -204,9 +204,9 @@ class scrypt(  # type: ignore[misc]
 
         return dict(
             ident=IDENT_SCRYPT,
-            rounds=int(nstr[3:]),
-            block_size=int(bstr[2:]),
-            parallelism=int(pstr[2:]),
+            rounds=uh.ascii_int(nstr[3:]),
+            block_size=uh.ascii_int(bstr[2:]),
+            parallelism=uh.ascii_int(pstr[2:]),
             salt=b64s_decode(salt.encode("ascii")),
             checksum=b64s_decode(digest.encode("ascii")) if digest else None,
         )
